@@ -4,6 +4,7 @@ literal that Python's `eval` would use - never decimal text) -/
 import MysticVerif.Basic.Proto
 import MysticVerif.Model.Symbolic
 import MysticVerif.Model.Symbolic2
+import MysticVerif.Model.SymbolicTop
 
 namespace MysticVerif.DrvC12
 open MysticVerif MysticVerif.Sym
@@ -77,7 +78,35 @@ def parseTLine : Val → Option (TLine Int)
   | _ => none
 def pTL (l : TLine Int) : String := s!"({l.e} {showCmp l.cmp})"
 
+/-- `none` | `(one t)` | `(many t1 t2 ...)` : a returned value, texts interned as numbers by the harness -/
+def parseRet : Val → Option (Ret Nat)
+  | .sym "none" => some .none
+  | .list [.sym "one", t] => do some (.one (← t.asNat?))
+  | .list (.sym "many" :: ts) => do some (.many (← ts.mapM Val.asNat?))
+  | _ => none
+
+/-- `(t ret)` : `_simplify` was called with case text `t` and returned `ret` -/
+def parsePart : Val → Option (Nat × Ret Nat)
+  | .list [t, r] => do some (← t.asNat?, ← parseRet r)
+  | _ => none
+
+def pON : Option Nat → String
+  | some n => toString n
+  | none => "none"
+
 def handle : Handler
+  | .sym "top" :: args => Id.run do
+    let some all := (kw? args "all").bind Val.asBool? | return "bad-op"
+    let some r := (kw? args "r").bind Val.asNat? | return "bad-op"
+    let some cons := (kw? args "abs").bind parseRet | return "bad-op"
+    let some parts := (kw? args "parts").bind Val.asList? |>.bind (·.mapM parsePart) | return "bad-op"
+    -- the model needs the value `_simplify` returned IN THIS CALL for every case text of absval
+    if cons.texts.any (fun t => (lookupRet parts t).isNone) then return "err case-without-_simplify-call"
+    let simple := fun t => (lookupRet parts t).getD .none
+    match simplifyTop all r cons simple with
+    | .tuple l => return s!"ok kind=tuple cases={pL (l.map pON)}"
+    | .single a => return s!"ok kind=single cases={pL [pON a]}"
+    | .empty => return "ok kind=empty cases=()"
   | .sym "validate" :: args => Id.run do
     let some inp := (kw? args "inp").bind Val.asList? |>.bind (·.mapM parseItem) | return "bad-op"
     let some out := (kw? args "out").bind Val.asList? |>.bind (·.mapM parseLines) | return "bad-op"
